@@ -17,7 +17,7 @@ class MySQLParser(SQLParser):
         ('left', AND),
         ('right', UNOT),
         ('left', EQUALS, NEQUALS),
-        ('nonassoc', LESS, LEQ, GREATER, GEQ, IN, BETWEEN, IS, IS_NOT, LIKE),
+        ('nonassoc', LESS, LEQ, GREATER, GEQ, IN, NOT, BETWEEN, IS, IS_NOT, LIKE),  # NOT: the first word of NOT IN
         ('left', CONCAT),
         ('left', PLUS, MINUS),
         ('left', STAR, DIVIDE, MODULO),
